@@ -547,7 +547,7 @@ class Agent(dbus.service.Object):
 
         self.__logger.info('Transfer %d size %d relative to MTU %s',
                            item.transfer_id, total_len, mtu)
-        if mtu is None or total_len < (mtu - 4):
+        if mtu is None or total_len <= (mtu - 4):
             # no segmentation
             msg = MessageHead()/BundlePdu(data)
             yield msg
